@@ -1,4 +1,5 @@
 import OdxVerif.Props.C02
+import OdxVerif.Proofs.FlatMsg
 /-! # C01 — encoding a message and decoding it returns the values that were encoded
     Proved tier: **atomic objects** inside an arbitrary surrounding message (the base case of the
     round-trip argument, for every bit length ≥ 1, bit position, byte order and `A_INT32` encoding),
@@ -38,6 +39,42 @@ theorem C01_frame (m1 m2 : Bytes) (h1 : AllBytes m1) (h2 : AllBytes m2) (pos bl 
   · have : j + bp < 8 * ((bl + bp + 7) / 8) := by omega
     simp [hj, this, hagree j hj]
   · simp [hj]
+
+/-- **C01, flat composite tier** — `Request.encode` then `Request.decode` at the API level of the model.
+    For every request/response/structure whose parameters are (at most 4000) VALUE parameters over `A_INT32`
+    standard-length DOPs with the identical compu method — *any* encodings (2C/1C/SM), bit lengths ≥ 1, bit
+    positions, byte orders, explicit BYTE-POSITIONs in any order or none — and every assignment of
+    representable values (`values` may list them in any order; no unknown names): if the encoder returns a PDU
+    without an overlap warning, decoding that PDU yields exactly the assigned values, parameter by parameter.
+    Missing relative to the full statement: the other parameter kinds, base types, diag-coded types, compu
+    methods, nested structures and fields (executable model + correspondence only). -/
+theorem C01_roundtrip_flat (ovs : List (Obj × Int)) (hlen : ovs.length ≤ 4000) (values : List (String × PVal))
+    (trig : Option Bytes)
+    (hok : ∀ ov ∈ ovs, ov.1.ok ∧ Spec.representable ov.1.enc ov.1.bl ov.2)
+    (hlook : ∀ ov ∈ ovs, lookup ov.1.name values = some (.atom (.int ov.2)))
+    (hknown : values.any (fun kv => !((ovs.map fun ov => ov.1.toParam).any fun p => p.name == kv.1)) = false)
+    (pdu : Bytes)
+    (henc : encodeMessage none (ovs.map fun ov => ov.1.toParam) (.dict values) trig true = .ok (pdu, 0)) :
+    ∃ cursor, decodeMessage none (ovs.map fun ov => ov.1.toParam) pdu true =
+      .ok (.dict (ovs.map fun ov => (ov.1.name, PVal.atom (.int ov.2))), cursor) :=
+  flat_roundtrip ovs hlen values trig hok hlook hknown pdu henc
+
+/-! non-vacuity of `C01_roundtrip_flat`: three parameters, the second explicitly positioned *behind* the third,
+    sub-byte objects sharing a byte, low-high byte order, values given in a different order -/
+def exObjs : List (Obj × Int) :=
+  [(⟨"a", none, some 4, none, true, 4⟩, -3), (⟨"b", some 3, none, some .sm, false, 16⟩, -300), (⟨"c", some 0, some 0, some .onec, true, 4⟩, 5),
+   (⟨"d", some 1, none, none, false, 12⟩, 1000)]
+def exValues : List (String × PVal) := [("d", .atom (.int 1000)), ("a", .atom (.int (-3))), ("c", .atom (.int 5)), ("b", .atom (.int (-300)))]
+example : (encodeMessage none (exObjs.map fun ov => ov.1.toParam) (.dict exValues) none true).toOption
+    = some ([0xd5, 0xe8, 0x03, 0x2c, 0x81], 0) := by decide +kernel
+example : ∀ ov ∈ exObjs, ov.1.ok ∧ Spec.representable ov.1.enc ov.1.bl ov.2 := by
+  intro ov h
+  simp only [exObjs, List.mem_cons, List.mem_nil_iff, or_false] at h
+  rcases h with rfl | rfl | rfl | rfl <;> simp [Obj.ok, int32Known, Spec.representable]
+example : ∀ ov ∈ exObjs, lookup ov.1.name exValues = some (.atom (.int ov.2)) := by
+  intro ov h
+  simp only [exObjs, List.mem_cons, List.mem_nil_iff, or_false] at h
+  rcases h with rfl | rfl | rfl | rfl <;> simp [lookup, exValues]
 
 example : int32Known (some .sm) = true ∧ Spec.representable (some .sm) 9 (-255) := by
   simp [int32Known, Spec.representable]
